@@ -1,11 +1,190 @@
+import OdmlModel.Py.Posix
+import OdmlModel.Model.PathTree
+import OdmlModel.Model.Path
 import Driver.Util
 import Driver.Loop
 open Lean Drv
 
 namespace DrvC14
+open PathTree Path
 
-/-- Stub: replaced when the model of C14 is built. -/
-def handle (_j : Json) : Except String Json := throw "model of C14 not built"
+def decStr (j : Json) : Except String (List Char) :=
+  match j with
+  | .str s => pure s.toList
+  | _ => throw "string expected"
+
+def decOptStr (j : Json) : Except String (Option (List Char)) :=
+  match j with
+  | .null => pure none
+  | .str s => pure (some s.toList)
+  | _ => throw "string or null expected"
+
+def decInt (j : Json) : Except String Int :=
+  match j with
+  | .num n => if n.exponent == 0 then pure n.mantissa else throw "non-int number"
+  | _ => throw "int expected"
+
+def decNat (j : Json) : Except String Nat := do
+  let i ← decInt j
+  if i < 0 then throw "nat expected" else pure i.toNat
+
+def decPos (j : Json) : Except String Pos :=
+  match j with
+  | .arr xs => xs.toList.mapM decNat
+  | _ => throw "position expected"
+
+def decProp (j : Json) : Except String PropT := do
+  let n ← getStr j "n"
+  let vs ← getArr j "v"
+  pure { name := n.toList, vals := ← vs.toList.mapM decInt }
+
+partial def decSec (j : Json) : Except String Sec := do
+  let n ← getStr j "n"
+  let t ← getStr j "t"
+  let ps ← getArr j "p"
+  let ss ← getArr j "s"
+  pure (.mk n.toList t.toList (← ps.toList.mapM decProp) (← ss.toList.mapM decSec))
+
+def decDoc (j : Json) : Except String Doc := do
+  let ss ← getArr j "s"
+  pure { secs := ← ss.toList.mapM decSec }
+
+def encPos (p : Pos) : Json := jarr (p.map jnat)
+def encPK (x : Pos × Nat) : Json := jarr [encPos x.1, jnat x.2]
+
+def encOptStr : Option (List Char) → Json
+  | none => Json.null
+  | some s => jchars s
+
+def encRes {α} (enc : α → Json) : Res α → Json
+  | .ok a => jobj [("ok", enc a)]
+  | .valueError => jobj [("raised", "ValueError")]
+  | .attributeError => jobj [("raised", "AttributeError")]
+
+def encFound : Found → Json
+  | .none => Json.null
+  | .one p => jobj [("one", encPos p)]
+  | .many ps => jobj [("many", jarr (ps.map encPos))]
+
+def decMd (j : Json) : Except String (Option Int) :=
+  match j with
+  | .null => pure none
+  | _ => some <$> decInt j
+
+def secFilter (j : Json) : Except String (Sec → Bool) := do
+  let k ← getStr j "k"
+  match k with
+  | "all" => pure fun _ => true
+  | "none" => pure fun _ => false
+  | "name_has" => do
+    let c ← getStr j "c"
+    pure fun s => c.toList.all (fun ch => s.name.contains ch)
+  | "type_eq" => do
+    let t ← getStr j "t"
+    pure fun s => s.type == t.toList
+  | _ => throw s!"unknown section filter {k}"
+
+def propFilter (j : Json) : Except String (PropT → Bool) := do
+  let k ← getStr j "k"
+  match k with
+  | "all" => pure fun _ => true
+  | "none" => pure fun _ => false
+  | "name_has" => do
+    let c ← getStr j "c"
+    pure fun p => c.toList.all (fun ch => p.name.contains ch)
+  | _ => throw s!"unknown property filter {k}"
+
+def valFilter (j : Json) : Except String (List Int → Bool) := do
+  let k ← getStr j "k"
+  match k with
+  | "all" => pure fun _ => true
+  | "none" => pure fun _ => false
+  | "len_ge" => do
+    let n ← getNat j "n"
+    pure fun v => decide (n ≤ v.length)
+  | "has" => do
+    let n ← getInt j "n"
+    pure fun v => v.contains n
+  | _ => throw s!"unknown value filter {k}"
+
+def query (d : Doc) (j : Json) : Except String Json := do
+  let q ← getStr j "q"
+  match q with
+  | "wf" => pure (jbool d.wf)
+  | "path" => pure (encOptStr (getPath d (← decPos (← getVal j "pos"))))
+  | "ppath" => pure (encOptStr (propPath d (← decPos (← getVal j "pos")) (← getNat j "k")))
+  | "sec" =>
+    pure (encRes encPos (getSectionByPath d (← decPos (← getVal j "cur")) (← getStr j "path").toList))
+  | "sec_legacy" =>
+    pure (encRes encPos (resolveSegsLegacy d (← decPos (← getVal j "cur"))
+      (Py.splitOn '/' (← getStr j "path").toList)))
+  | "prop" =>
+    pure (encRes encPK (getPropertyByPath d (← decPos (← getVal j "cur")) (← getStr j "path").toList))
+  | "rel" =>
+    pure (encOptStr (getRelativePath d (← decPos (← getVal j "a")) (← decPos (← getVal j "b"))))
+  | "abs" =>
+    let cur ← decPos (← getVal j "cur")
+    match getPath d (← decPos (← getVal j "target")) with
+    | some path => pure (jobj [("path", jchars path), ("res", encRes encPos (getSectionByPath d cur path))])
+    | none => throw "abs: no such target"
+  | "absp" =>
+    let cur ← decPos (← getVal j "cur")
+    match propPath d (← decPos (← getVal j "target")) (← getNat j "k") with
+    | some path => pure (jobj [("path", jchars path), ("res", encRes encPK (getPropertyByPath d cur path))])
+    | none => throw "absp: no such target"
+  | "relres" =>
+    let a ← decPos (← getVal j "a")
+    match getRelativePath d a (← decPos (← getVal j "b")) with
+    | some path => pure (jobj [("path", jchars path), ("res", encRes encPos (getSectionByPath d a path))])
+    | none => throw "relres: no such section"
+  | "relp" =>
+    let a ← decPos (← getVal j "a")
+    let b ← decPos (← getVal j "b")
+    let k ← getNat j "k"
+    match getRelativePath d a b, (secAt d.secs b).bind (fun s => s.props[k]?) with
+    | some rel, some pr =>
+      let path := rel ++ ':' :: pr.name
+      pure (jobj [("path", jchars path), ("res", encRes encPK (getPropertyByPath d a path))])
+    | _, _ => throw "relp: no such object"
+  | "itersec" =>
+    let r := itersections d (← decPos (← getVal j "start")) (← decMd (← getVal j "md"))
+      (← getBool j "ys") (← secFilter (← getVal j "f"))
+    pure (jarr (r.map encPos))
+  | "iterprop" =>
+    let r := iterproperties d (← decPos (← getVal j "start")) (← decMd (← getVal j "md"))
+      (← propFilter (← getVal j "f"))
+    pure (jarr (r.map encPK))
+  | "iterval" =>
+    let r := itervalues d (← decPos (← getVal j "start")) (← decMd (← getVal j "md"))
+      (← valFilter (← getVal j "f"))
+    pure (jarr (r.map encPK))
+  | "find" =>
+    pure (encFound (find d (← decPos (← getVal j "cur")) (← decOptStr (← getVal j "key"))
+      (← decOptStr (← getVal j "type")) (← getBool j "all") (← getBool j "sub")))
+  | "related" =>
+    pure (encFound (findRelated d (← decPos (← getVal j "cur")) (← decOptStr (← getVal j "key"))
+      (← decOptStr (← getVal j "type")) (← getBool j "children") (← getBool j "siblings")
+      (← getBool j "parents") (← getBool j "recursive") (← getBool j "all")))
+  | _ => throw s!"unknown query {q}"
+
+def handle (j : Json) : Except String Json := do
+  let op ← getStr j "op"
+  match op with
+  | "tree" =>
+    let d ← decDoc (← getVal j "doc")
+    let qs ← getArr j "qs"
+    pure (jarr (← qs.toList.mapM (query d)))
+  | "posix" =>
+    let f ← getStr j "f"
+    let a := (← getStr j "a").toList
+    match f with
+    | "dirname" => pure (jchars (Py.Posix.dirname a))
+    | "normpath" => pure (jchars (Py.Posix.normpath a))
+    | "commonprefix" => pure (jchars (Py.Posix.commonPrefix a (← getStr j "b").toList))
+    | "relpath" => pure (jchars (Py.Posix.relpath a (← getStr j "b").toList))
+    | "relative" => pure (jchars (relativePath a (← getStr j "b").toList))
+    | _ => throw s!"unknown posix function {f}"
+  | _ => throw s!"unknown op {op}"
 
 end DrvC14
 
